@@ -310,6 +310,19 @@ open Example in
 example : buildFuel P3 = 16 ∧ closure P3 15 [startNT P3] [] = none ∧
     buildFuel P4 = 3 ∧ closure P4 2 [startNT P4] [] = none := by decide
 
+/-- … hence the constructor's answer does not depend on the fuel once it is adequate. -/
+theorem C01_construction_fuel_indep (P : Params) (fuel : Nat) (hf : buildFuel P ≤ fuel) :
+    buildTable P fuel = buildTable P (buildFuel P) := by
+  obtain ⟨tbl, hc, hall⟩ := C01_construction_fuel P (buildFuel P) (Nat.le_refl _)
+  have h := hall fuel hf
+  unfold buildTable
+  rw [h, hc]
+
+open Example in
+/-- non-vacuity: `buildFuel P3 = 16`, and with fuel 15 the answer differs (loop not over) -/
+example : buildFuel P3 ≤ 1000 ∧ buildTable P3 15 = none ∧ (buildTable P3 (buildFuel P3)).isSome = true := by
+  decide
+
 /-- **C01 for the construction — language**: whenever the model of `CFG.depth_constraint`
     returns a grammar, membership in it (the implementation's stack-based derivation) is exactly
     well-typedness. For every parameter set and every fuel. -/
